@@ -6,6 +6,9 @@ from . import spatial
 
 LEVEL = "other"
 RULES = {
+    "R02.2": "axis typing (type-directed dataflow, sa/e3.py): in convolve, pad3d, upsample3d and the three spatial forward passes no "
+             "additive / comparison / step / index / tuple-position use combines a height quantity (`.0` of kernel/stride/padding/"
+             "dilation, x[0].len(), row index) with a width quantity (`.1`, x[0][0].len(), column index)",
     "R02.3": "flat-input re-chunking, sibling agreement: in the Data::Single arm of every spatial forward the vector is split with "
              "chunks_exact(h*w) then chunks_exact(w) where (h, w) are components 1, 2 of the layer's *inputs* shape",
 }
@@ -13,7 +16,12 @@ ASSUMPTIONS = ["layer inputs match self.inputs (documented precondition of the s
 TRUSTED = ["rustc nightly front end", "driver/src/main.rs", "sa/e1.py"]
 
 
+FWD_FNS = ["convolution::Convolution::convolve", "convolution::Convolution::forward", "deconvolution::Deconvolution::forward",
+           "maxpool::Maxpool::forward", "tensor::pad3d", "tensor::upsample3d"]
+
+
 def run(ctx):
+    ctx.guard("R02.2", "axis-typing", spatial.axis_typing, ctx, "R02.2", FWD_FNS, 120)
     for l in spatial.LAYERS:
         ctx.guard("R02.3", l, spatial.flat_rechunk, ctx, "R02.3", l)
     ctx.floor("R02.3", 6, "dims source + chunk sizes in three forwards")
